@@ -277,6 +277,11 @@ func GenPool(t *rapid.T, cfg Cfg, n int) []string {
 					}
 				}
 				add(b.sb.String())
+				if j == 0 && rapid.Bool().Draw(t, "kbelow") {
+					// and a route below the first competitor: its node then stays in the tree when it is emptied
+					b.extend(t, rapid.IntRange(1, 2).Draw(t, "kbelowExt"))
+					add(b.sb.String())
+				}
 			}
 		case mode < 4 || len(pool) == 0:
 			add(GenPattern(t, cfg))
